@@ -160,6 +160,9 @@ def registry():
                        lambda c, s: {"reg": _tree(s)}, mode="sampling" if m == "random" else "max", feat=False, setdep=True))
     E.append(Entry("SubSamplingWrapper", lambda c, s: P.SubSamplingWrapper(query_strategy=P.UncertaintySampling(random_state=s), max_candidates=0.5, random_state=s),
                    "clf", lambda c, s: {"clf": _clf(c, s)}, wrapper=True, setdep=True, subsample=0.5))
+    E.append(Entry("SubSamplingWrapper[exclude]", lambda c, s: P.SubSamplingWrapper(query_strategy=P.UncertaintySampling(random_state=s), max_candidates=0.5,
+                                                                                   exclude_non_subsample=True, random_state=s),
+                   "clf", lambda c, s: {"clf": _clf(c, s)}, wrapper=True, setdep=True, subsample=0.5))
     E.append(Entry("ParallelUtilityEstimationWrapper", lambda c, s: P.ParallelUtilityEstimationWrapper(query_strategy=P.UncertaintySampling(random_state=s), n_jobs=2, random_state=s),
                    "clf", lambda c, s: {"clf": _clf(c, s)}, max_bs=1, wrapper=True, samplewise=True))
     return E
@@ -170,9 +173,12 @@ def gen_data(rng, task, n=None, binary=False, cold=None):
     """Small data sets built to hit the logic layer: integer grid (duplicated points),
     constant feature, cold start, single candidate."""
     n = n or int(rng.integers(6, 13))
-    style = str(rng.choice(["grid", "grid", "const_feature", "normal"]))
+    style = str(rng.choice(["grid", "grid", "const_feature", "normal", "outlier"]))
     if style == "normal":
         X = rng.normal(size=(n, 2))
+    elif style == "outlier":          # one gross outlier: its kernel similarity to every other sample underflows to exactly 0
+        X = rng.normal(size=(n, 2))
+        X[int(rng.integers(n))] = [150.0, -150.0]
     else:
         X = rng.integers(0, 3, size=(n, 2)).astype(float)
         if style == "const_feature":
